@@ -2,6 +2,9 @@
 package main
 
 import (
+	"os"
+	"runtime/pprof"
+
 	"verif/checks/c09/frontclient"
 	"verif/internal/ev"
 )
@@ -9,6 +12,15 @@ import (
 func main() {
 	run := ev.Start("C09C", "exploration")
 	run.SetRule("development run of the client front of C09 only")
+	if p := os.Getenv("VERIF_PPROF"); p != "" {
+		if f, err := os.Create(p); err == nil {
+			_ = pprof.StartCPUProfile(f)
+			frontclient.Run(run)
+			pprof.StopCPUProfile()
+			f.Close()
+			run.Finish()
+		}
+	}
 	frontclient.Run(run)
 	run.Finish()
 }
